@@ -264,8 +264,11 @@ def dyn_sig(inv, rows, line):
     if inv in ("D.NoNotifWhenDisabled", "D.ModernOnlyAcked", "D.NoSpurious"):
         kinds = sorted({"%s=%s" % (d[1], cfg.get(d[1], "?")) for d in e["dl"]})
         return "%s:at=%s:%s" % (inv, e["ev"], ",".join(kinds))
-    if inv in ("D.AdvCurrent", "D.AckExact"):
-        return "%s:era=%s:%s" % (inv, e["era"], ",".join("%s=%s/%s" % (k, cfg.get(k, "?"), e["adv"][k]) for k in sorted(e["adv"])))
+    if inv.startswith("D.AdvCurrent."):
+        k = inv.split(".")[2]
+        return "%s:era=%s:explicit=%s:got=%s" % (inv, e["era"], cfg.get(k, "?"), e["adv"][k])
+    if inv == "D.AckExact":
+        return "%s:%s" % (inv, ",".join("%s=%s/%s" % (k, cfg.get(k, "?"), e["adv"][k]) for k in sorted(e["want"])))
     return "%s:at=%s" % (inv, e["ev"])
 
 
@@ -446,7 +449,7 @@ def run(tier, seed, replay):
                 continue
             v.violation(dyn_sig(inv, drows, f["line"]),
                         "%s (%s) in scenario %s at the %s step: adv=%s want=%s ack=%s deliveries=%s %s" % (
-                            inv, PROPERTY_OF.get(inv, "?"), e["trace"], e["ev"], e["adv"], e["want"], e["ack"], e["dl"], e["info"]),
+                            inv, PROPERTY_OF.get(".".join(inv.split(".")[:2]), "?"), e["trace"], e["ev"], e["adv"], e["want"], e["ack"], e["dl"], e["info"]),
                         {"kind": "dyn", "scenario": sc, "trace": trace_of(drows, f["line"])})
     if not replay:
         binding_selftest(v, trows, drows)
